@@ -9,6 +9,7 @@ Obligations (DESIGN.md 3/C04):
  (d) Log::request_response arithmetic on symbolic part sizes: no overflow.
 Stack exhaustion is outside the claim (needs machine frame sizes)."""
 from appsweep import *
+from mirse import models as MODELS
 from mirse.pool import closure_fn as P_closure_fn
 from mirse.engine import Closure, Unsupported
 import re
@@ -216,7 +217,36 @@ def case_skeleton(prog, params):
 
 
 # ------------------------------------------------------------------ (d) log arithmetic
+def case_log_header(prog, params):
+    """Log::request_response on a request / response carrying one long header value (valid UTF-8 over {a, U+00E9}): lengths around
+    the powers of two where truncation / buffering code has its edges"""
+    ex = new_ex(prog); ex.allow_non_ascii = True
+    cons = []
+    n = params['hv_len']
+    v = SymStr.fresh('hv', n, cons, exact_len=n, alphabet=[0x61, 0xC3, 0xA9])
+    cons.append(zb(MODELS.utf8_valid(v.flat())))
+    req = request('GET', '/a', [header('Cookie', v)] if params['where'] == 'request' else [])
+    resp = Struct('Response', (S('HTTP/1.1'), Int('i16', 200), S('OK'), Vec([header('X-A', v)] if params['where'] == 'response' else []), Vec([])))
+    st = State(); st.pc = list(cons)
+    res = {'violations': [], 'inconclusive': [], 'samples': [], 'kinds': {}}
+    outs = ex.run_fn('Log::request_response', [req, resp, Opaque('SocketAddr', (Opaque('IpAddr', b'127.0.0.1'), Int('u16', 5)))], st)
+    for o in outs:
+        k = outcome_kind(o.outcome); res['kinds'][k] = res['kinds'].get(k, 0) + 1
+        if o.outcome[0] == 'panic':
+            r, m = ex.check(o.pc)
+            if r == 'sat':
+                hv = model_bytes(m, v)
+                res['violations'].append({'key': 'C04:panic:Log::request_response:long-header-value', 'text': 'Log::request_response panics (%s) for a %d-byte %s header value' % (o.outcome[1], n, params['where']),
+                                          'witness': {'kind': 'log-header', 'where': params['where'], 'value': hv.hex()}})
+        elif o.outcome[0] == 'stop' and not o.outcome[1].startswith(('domain:', 'bound:itoa')):
+            res['inconclusive'].append({'status': o.outcome[1], 'error': str(o.outcome[2])[:200]})
+    res.update(H.ex_summary(ex))
+    res['samples'].append({'obligation': 'log of long header values', 'case': params, 'kinds': res['kinds']})
+    return res
+
+
 def case_log(prog, params):
+    if params.get('hv_len') is not None: return case_log_header(prog, params)
     ex = new_ex(prog)
     cons = []
     sizes = [SymStr.fresh('size%d' % i, 10, cons, minlen=1, alphabet=[48 + d for d in range(10)]) for i in range(params['parts'])]
@@ -249,6 +279,11 @@ def replay_native(chk, v):
     w = v['witness']; import tempfile, shutil
     if w['kind'] == 'parse':
         st, out = chk.oracle.run([('request_parse', [bytes.fromhex(w['raw'])])])[0]
+        return {'reproduced': st == 'panic', 'native': st, 'detail': out[0].decode('latin1')[:200] if out else ''}
+    if w['kind'] == 'log-header':
+        hv = bytes.fromhex(w['value'])
+        reqb = b'GET /a HTTP/1.1\r\nCookie: ' + hv + b'\r\n\r\n'
+        st, out = chk.oracle.run([('process', [reqb, len(reqb)])], env={'RWS_CONFIG_CORS_ALLOW_ALL': 'true'})[0]
         return {'reproduced': st == 'panic', 'native': st, 'detail': out[0].decode('latin1')[:200] if out else ''}
     if w['kind'] == 'log':
         st, out = chk.oracle.run([('log_sizes', [s.encode() for s in w['sizes']])])[0]
@@ -329,6 +364,9 @@ def main():
                 cases.append(dict(ob='skeleton', entry=entry, app=app, request=reqs))
     for parts in (1, 2):
         cases.append(dict(ob='log', parts=parts))
+    for n in ((255, 256, 257, 258) if chk.tier == 'quick' else (63, 64, 65, 127, 128, 129, 255, 256, 257, 258, 259, 511, 512, 513, 1023, 1024, 1025)):
+        cases.append(dict(ob='log', hv_len=n, where='request'))
+    for n in (257, 258): cases.append(dict(ob='log', hv_len=n, where='response'))
     for c in cases[::5]: c['sample'] = True
     chk.run_cases(case, cases, label='C04 obligations')
     chk.finish(replay_fn=lambda v: replay_native(chk, v))
